@@ -152,8 +152,8 @@ def load_one(lit: LineIterator) -> dict:
     atfrozen = fchk.get("MicOpt")
     if atfrozen is not None:
         result["atfrozen"] = atfrozen == -2
-    run_types = {"SP": "energy", "FOpt": "opt", "Scan": "scan", "Freq": "freq"}
-    run_type = run_types.get(fchk["command"])
+    run_types = {"sp": "energy", "fopt": "opt", "scan": "scan", "freq": "freq"}
+    run_type = run_types.get(fchk["command"].lower())
     if run_type is not None:
         result["run_type"] = run_type
 
@@ -623,8 +623,7 @@ def dump_one(f: TextIO, data: IOData):
 
     # write run type, level of theory, and basis set name (all in uppercase)
     items = [getattr(data, item) or "NA" for item in ["run_type", "lot", "obasis_name"]]
-    if items[0] == "energy":
-        items[0] = "SP"
+    items[0] = {"energy": "SP", "opt": "FOpt"}.get(items[0], items[0])
     print(f"{items[0].upper():10s}{items[1].upper():30s}{items[2].upper():>33s}", file=f)
 
     # write basic information
